@@ -2,7 +2,7 @@
 # lib/run_all.sh <tier> <seed> [checks...]  - every check in turn on the current tree; one summary line each
 tier=${1:-quick}; seed=${2:-1}; shift 2
 checks=${@:-C01 C02 C03 C04 C05 C06 C07 C08 C09 C10 C11 C12 C13 C14 C15 C16 C17 C18 C19 C20}
-cd /verif
+cd "$(dirname "$0")/.."
 for c in $checks; do
   out=$(./check $c --tier $tier --seed $seed 2>&1); rc=$?
   echo "== $c tier=$tier seed=$seed exit=$rc"
